@@ -202,6 +202,7 @@ let parse_wcmd (toks : string list) : wcmd =
   | ["readdirs"; a; d1; d2; nm; sf; dl; cm] -> WReadDirs (o a, dec_opt d1, dec_opt d2, dec_opt nm, dec_opt sf, dec dl, dec cm)
   | ["readconfig"; a; pr; us; nm; sf; dl; cm] -> WReadConfig (o a, dec_opt pr, dec_opt us, dec_opt nm, dec_opt sf, dec dl, dec cm)
   | ["history"; d1; d2; nm; sf; dl; cm] -> WHistory (dec_opt d1, dec_opt d2, dec_opt nm, dec_opt sf, dec dl, dec cm)
+  | ["writeto"; a; d; f] -> WWriteTo (o a, dec d, dec f)
   | ["errloc"] -> WErrLoc
   | _ -> WBase (parse_cmd toks)
 
